@@ -134,7 +134,7 @@ def r1_bounded_start(ctx, rep, R='C06.R1'):
             outer = node
     ready = None
     for v in local_assignments(fi.node).get(tvar, []):
-        if isinstance(v, ast.Call) and isinstance(v.func, ast.Attribute) and v.func.attr == 'pop':
+        if isinstance(v, ast.Call) and isinstance(v.func, ast.Attribute) and v.func.attr in ('pop', 'popleft'):
             ready = dotted(v.func.value)
     okm = outer is not None and isinstance(outer.test, ast.BoolOp) and isinstance(outer.test.op, ast.Or) \
         and sorted(norm(v) for v in outer.test.values) == sorted([str(ready), str(running)])
